@@ -655,13 +655,90 @@ def load_orders(ctx, rng, thorough):
                                                  'impl_after_other_loads': str(got)[:1500], 'impl_fresh_interpreter': str(want)[:1500],
                                                  'theorem': 'Hpv.Props.C12.load_history_free'})
                     return
+        # ONE PATH whose content is replaced between two loads - by a document of the same size, with the file's time stamps put back
+        # (what rsync -t / cp -p / a coarse clock do): the second load returns the second document
+        for kind, a, b in (('minimal', jobs[0][1], jobs[2][1]), ('full', jobs[2][1], jobs[0][1]), ('hpoa', p, p)):
+            da, db = open(a, 'rb').read(), open(b, 'rb').read()
+            if kind == 'hpoa':
+                db = da.replace(b'CONFIG SENSITIVE', b'config sensitive')          # another document of the same length
+            size = max(len(da), len(db))
+            same = os.path.join(world, 'same-path.' + ('hpoa' if kind == 'hpoa' else 'json'))
+            other = os.path.join(world, 'other-path.' + ('hpoa' if kind == 'hpoa' else 'json'))
+            ctx.case(['same-path', kind], True, 'same path, new content, old time stamps')
+            try:
+                with open(same, 'wb') as fh:
+                    fh.write(da + b' ' * (size - len(da)) if kind != 'hpoa' else da)
+                st = os.stat(same)
+                first = json.loads(json.dumps(load_and_dump([kind, same])))
+                with open(same, 'wb') as fh:
+                    fh.write(db + b' ' * (size - len(db)) if kind != 'hpoa' else db)
+                os.utime(same, ns=(st.st_atime_ns, st.st_mtime_ns))
+                with open(other, 'wb') as fh:
+                    fh.write(db)
+                second = json.loads(json.dumps(load_and_dump([kind, same])))
+                want = json.loads(json.dumps(load_and_dump([kind, other])))
+            except Exception as e:  # noqa
+                second, want = f'raises {type(e).__name__}: {e}', None
+            if second != want:
+                ctx.violation('same-path', {'case': {'kind': 'same-path', 'loader': kind, 'first_document': da.decode('utf-8')[:3000], 'second_document': db.decode('utf-8')[:3000]},
+                                            'impl_second_load_of_the_path': str(second)[:1200], 'impl_same_bytes_at_another_path': str(want)[:1200],
+                                            'theorem': 'Hpv.Props.C12.load_history_free'})
+                return
     finally:
         shutil.rmtree(world, ignore_errors=True)
+
+
+def graphs_come_and_go(ctx, rng, rounds):
+    """graphs over ONE set of labels but with different edges are built, asked through the module-level helpers and the graph's own
+    methods, and dropped (collected) one after the other: what an earlier graph answered - it may have lived at the same address - must
+    not show in the answers of a later one. Expected answers: a closure computed here from each edge list."""
+    import gc
+    from hpotk.model import TermId
+    try:
+        from hpotk.algorithm import exists_path, get_ancestors, get_descendants
+    except Exception:  # noqa
+        ctx.count('graphs-come-and-go.helpers-unavailable')
+        return
+    labels = [f'HP:{i:07d}' for i in range(1, 8)]
+    tids = [TermId.from_curie(x) for x in labels]
+    for r in range(rounds):
+        par = {j: sorted(set(rng.sample(range(j), min(j, rng.choice([1, 1, 2]))))) for j in range(1, len(labels))}
+        edges = [(labels[j], labels[i]) for j, ps in par.items() for i in ps]
+        anc = {0: set()}
+        for j in range(1, len(labels)):
+            anc[j] = set(par[j]).union(*(anc[i] for i in par[j]))
+        f = gl.FACTORIES[r % 3]
+        g = gl.build_impl(f, edges)
+        ctx.case(['come-and-go', f, edges], True, 'graphs that come and go (module-level helpers)')
+        problem = None
+        try:
+            for a in range(len(labels)):
+                for b in range(len(labels)):
+                    got = exists_path(g, tids[a], tids[b])
+                    if got is not (b in anc[a]):
+                        problem = f'exists_path({labels[a]}, {labels[b]}) = {got!r}, the edges say {b in anc[a]}'
+                got = sorted(t.value for t in get_ancestors(g, tids[a]))
+                if got != sorted(labels[i] for i in anc[a]):
+                    problem = f'get_ancestors({labels[a]}) = {got}, the edges say {sorted(labels[i] for i in anc[a])}'
+                got = sorted(t.value for t in get_descendants(g, tids[a]))
+                if got != sorted(labels[j] for j in anc if a in anc[j]):
+                    problem = f'get_descendants({labels[a]}) = {got}'
+        except Exception as e:  # noqa
+            problem = f'raises {type(e).__name__}: {e}'
+        if problem:
+            ctx.violation('come-and-go', {'case': {'kind': 'come-and-go', 'round': r, 'factory': f, 'edges': edges}, 'impl': problem,
+                                          'theorem': 'Hpv.Props.C12.eval_history_free'})
+            return
+        del g
+        gc.collect()
 
 
 def run(ctx):
     rng = ctx.rng
     thorough = ctx.tier == 'thorough'
+    with warnings.catch_warnings():
+        warnings.simplefilter('ignore')
+        graphs_come_and_go(ctx, rng, 400 if thorough else 150)
     fixed = [[('HP:2', 'HP:1'), ('HP:3', 'HP:1'), ('HP:4', 'HP:2'), ('HP:4', 'HP:3'), ('HP:5', 'HP:4'), ('HP:6', 'HP:4')],
              [('HP:2', 'HP:1'), ('HP:3', 'HP:2'), ('HP:4', 'HP:3'), ('HP:5', 'HP:4'), ('HP:5', 'HP:2')]]
     for edges in fixed:
